@@ -309,6 +309,41 @@ def shard_table_near_miss(arg):
     return rep
 
 
+def shard_qubit_row_near_miss(arg):
+    """a valid stabilizer in which the Paulis ON ONE QUBIT (one row of R and S) are replaced by arbitrary ones: the corruption is
+    local to a qubit instead of local to a generator.  Table graphs with an isolated / low-degree vertex in graph form and
+    constructed members are used as the valid starting points."""
+    n, name, class_ids, per, seed, deadline = arg
+    from gen import tableinfo
+    rep = fw.Report()
+    ent = tableinfo.parsed(n, name)
+    for k in class_ids:
+        if k >= len(ent) or ent[k] is None:
+            continue
+        gid = ent[k][0]
+        adj = lc.adj_from_gid(n, gid)
+        for j in range(per):
+            if deadline and time.time() > deadline:
+                rep.truncated = True
+                return rep
+            rng = fw.rng_for("c08q", seed, n, name, k, j)
+            if j % 2 == 0:
+                base = [list(g) for g in lc.graph_state_gens(n, gid)]
+            else:
+                base = [list(g) for g in members.member(n, lc.orbit_table(n)[gid], rng, signs="plus", mix=(j % 4 == 1))[0]]
+            # prefer the vertices of lowest degree (isolated qubits first), they are the ones special-cased by classifiers
+            order = sorted(range(n), key=lambda v: (bin(adj[v]).count("1"), rng.random()))
+            q = order[0] if rng.random() < 0.7 else rng.randrange(n)
+            gens = [list(g) for g in base]
+            for g in gens:
+                g[1] = (g[1] & ~(1 << q)) | (rng.randrange(2) << q)
+                g[2] = (g[2] & ~(1 << q)) | (rng.randrange(2) << q)
+            fmt = ["matrices", "strings", "matrices+phases"][j % 3]
+            run_ops(rep, {"n": n, "connectivity": name, "gens": gens, "format": fmt, "distribution": "qubit-row-near-miss"},
+                    sample=(k % 40 == 2 and j == 1))
+    return rep
+
+
 # ---- malformed string lists ---------------------------------------------------------------------
 
 def shard_lists(arg):
@@ -447,7 +482,7 @@ def shard(arg):
     kind = arg[0]
     libif.limit_memory(6)
     return {"matrices": shard_matrices, "hyp": shard_hyp, "lists": shard_lists, "entries": shard_entries,
-            "table-near-miss": shard_table_near_miss}[kind](arg[1:])
+            "table-near-miss": shard_table_near_miss, "qubit-row": shard_qubit_row_near_miss}[kind](arg[1:])
 
 
 def run(ctx):
@@ -471,6 +506,9 @@ def run(ctx):
         stride = 1 if n <= 4 else ((4 if n == 5 else 40) if q else (1 if n == 5 else 4))
         for chunk in fw.split(list(range(kc[n])), 1 if n <= 4 else (2 if n == 5 else 8)):
             args.append(("table-near-miss", n, name, chunk, stride, ctx.seed, dl))
+        per = {2: 8, 3: 12, 4: 12, 5: 8, 6: 2}[n] * (1 if q else 8)
+        for chunk in fw.split(list(range(kc[n])), 1 if n <= 4 else (2 if n == 5 else 8)):
+            args.append(("qubit-row", n, name, chunk, per, ctx.seed, dl))
     rep = fw.run_shards(ctx, "props.c08", "shard", args)
     rep.extra["exhaustive"] = False
     rep.extra["exhaustive_part"] = ("all 2^8 matrix pairs for n=2 x all sign vectors; full product of entry points x names x qubit counts 0..8" +
